@@ -211,7 +211,8 @@ class _Filterer(object):
             if isinstance(x, dict) and '$elemMatch' in x:
                 matches.append(self._elem_match_op(doc_val, x['$elemMatch']))
             else:
-                matches.append(x in dv)
+                # As for an equality, null is also met by a missing field.
+                matches.append(x in dv or (x is None and NOTHING in dv))
         return all(matches)
 
 
